@@ -2,12 +2,12 @@
 from hypothesis import strategies as st
 from ..runner import Outcome
 from .. import ops as O, eqv
-from ..hist import HistoryRun, bundle_sig, diff_locus
+from ..hist import HistoryRun, bundle_sig, judge_state_diff
 
 ID = 'C01'
 LEVEL = 'exploration'
 TECHNIQUE = 'stateful property-based testing (generated user-action histories), history invariant oracle'
-RULE = ('case = prelude (2 typed tables, rows, ref, formulas) + up to 12 bundles of 1-2 abstract ops from the '
+RULE = ('case = prelude (2 typed tables, rows, ref, formulas) + up to 10-14 bundles of 1-2 abstract ops from the '
         'full user-action vocabulary (profile general/schema), resolved against the live document; every '
         'successful bundle is undone (mode 0: whole history in reverse; mode 1: immediately, then re-applied; '
         'mode 2: both). Non-trivial = history with >=1 successful schema action, >=1 successful record action '
@@ -17,11 +17,17 @@ ORACLE = ('snapshot (all tables incl. metadata, formulas included, Node-observab
           'against the post-InitNewDoc state; a raising undo is a violation')
 ASSUMPTIONS = ['only bundles that succeeded are undone, in strict reverse order (test_undo.py: out-of-order undo may be refused)',
                'undo lists are sent back verbatim as reprs via ApplyUndoActions (as Node does)',
-               'generators follow DESIGN.md 2.7 (tables/columns added through user actions; no Any data columns are '
-               'excluded here since AddTable accepts them; table ids avoid names of imported functions)']
+               'a formula cell that differs after undo is charged to C01 only if its value before the bundle was what a '
+               'fresh engine computes (otherwise the stale prior value is a C05 matter); error-kind differences '
+               'involving CircularRefError (cycles through lookups) are not judged',
+               'generators follow DESIGN.md 2.7; summary group-by columns have a concrete (non-Any) type']
 BUDGET = {'quick': dict(examples=320, shards=16, max_seconds=55),
           'thorough': dict(examples=12000, shards=16, max_seconds=900)}
-SHRINK_BUDGET = {'quick': 120, 'thorough': 500}
+SHRINK_BUDGET = {'quick': 60, 'thorough': 400}
+
+
+# suffixes from hist.judge_state_diff that already name one root cause (no bundle kinds appended)
+ROOT_CAUSE_SUFFIXES = ('cells:lookup-KeyError-stale', 'summary-rows-renumbered')
 
 
 def strategy(tier):
@@ -36,48 +42,50 @@ def run_case(case):
   out = Outcome()
   mode = int(case.get('mode', 0)) % 3
   hr = HistoryRun(case['h'])
-  stack = []   # (before_snapshot, undo, uas)
+  stack = []   # (before_snapshot, undo, uas, log_pos)
+
+  def check_undo(before, undo, uas, log_pos, how):
+    r = hr.doc.apply([['ApplyUndoActions', undo]])
+    sig = bundle_sig(uas)
+    if not r.ok:
+      out.fail('C01:undo-raised:' + sig, '%s undo of %r raised %r' % (how, uas, r.error))
+      return None
+    now = hr.doc.snapshot()
+    bad, labels = judge_state_diff(before, now, hr.doc.log, log_pos)
+    out.cls(*labels)
+    if bad:
+      out.fail('C01:undo-mismatch:%s' % (bad[0] if bad[0] in ROOT_CAUSE_SUFFIXES else '%s:%s' % (sig, bad[0])),
+               'state after %s undo of %r differs from the state before it' % (how, uas), bad[1])
+      return None
+    return now
 
   def on_step(s):
     if not s.reply.ok:
       return None
     undo = s.reply.undo
+    log_pos = s.log_pos
+    before = s.before
     if mode in (1, 2):
-      r = hr.doc.apply([['ApplyUndoActions', undo]])
-      sig = bundle_sig(s.uas)
-      if not r.ok:
-        out.fail('C01:undo-raised:' + sig, 'immediate undo of %r raised %r' % (s.uas, r.error))
+      before = check_undo(s.before, undo, s.uas, s.log_pos, 'immediate')
+      if before is None:
         return True
-      now = hr.doc.snapshot()
-      d = eqv.diff(s.before, now)
-      if d:
-        out.fail('C01:undo-mismatch:%s:%s' % (sig, diff_locus(d)),
-                 'state after immediate undo of %r differs from state before it' % (s.uas,), d)
-        return True
+      log_pos = len(hr.doc.log)
       r2 = hr.doc.apply(s.uas)
       if not r2.ok:
-        out.fail('C01:reapply-raised:' + sig, 're-applying %r after its undo raised %r' % (s.uas, r2.error))
+        out.fail('C01:reapply-raised:' + bundle_sig(s.uas),
+                 're-applying %r after its undo raised %r' % (s.uas, r2.error))
         return True
       s.after = hr.doc.snapshot()
       undo = r2.undo
       out.cls('immediate-undo')
-    stack.append((s.before, undo, s.uas))
+    stack.append((before, undo, s.uas, log_pos))
     return None
 
   hr.run(on_step)
   nontrivial = hr.n_schema_ok >= 1 and hr.n_record_ok >= 1 and hr.has_formula_columns()
   if out['ok'] and mode in (0, 2):
-    for before, undo, uas in reversed(stack):
-      r = hr.doc.apply([['ApplyUndoActions', undo]])
-      sig = bundle_sig(uas)
-      if not r.ok:
-        out.fail('C01:undo-raised:' + sig, 'undo of %r raised %r' % (uas, r.error))
-        break
-      now = hr.doc.snapshot()
-      d = eqv.diff(before, now)
-      if d:
-        out.fail('C01:undo-mismatch:%s:%s' % (sig, diff_locus(d)),
-                 'state after undo of %r differs from the state before it' % (uas,), d)
+    for before, undo, uas, log_pos in reversed(stack):
+      if check_undo(before, undo, uas, log_pos, 'reverse-order') is None:
         break
     out.cls('reverse-undo')
   out['concrete'] = hr.concrete()
